@@ -117,6 +117,7 @@ func (p Params) Body() func() {
 				} else {
 					nextCancel()
 				}
+				_ = "nextRetry cancels the receiver's first context too"
 			}()
 		}
 		// receiver = this thread
@@ -139,13 +140,19 @@ func (p Params) Body() func() {
 			})
 			isEnd := err != nil && !errors.Is(err, context.Canceled)
 			if sticky {
-				if err != stickyErr {
+				// (a call that fails because of its own context says nothing about the pipe)
+				if err != stickyErr && !errors.Is(err, context.Canceled) {
 					hx.Fail("end-not-sticky", "Next reported %v, then (no Send in flight) (%d,%v)", stickyErr, v, err)
 				}
 			} else if isEnd && quiet {
 				sticky, stickyErr = true, err
 			}
 			if err != nil {
+				if errors.Is(err, context.Canceled) && p.Cancel == "nextRetry" {
+					// a Next that gives up because its context ended costs nothing: go on with a live one
+					nextCtx = context.Background()
+					continue
+				}
 				if errors.Is(err, context.Canceled) && p.Cancel == "next" {
 					// the receiver gives up: it has to close its end, as the Stream contract demands
 					hx.Atomically(func() { l.recvClosed = l.tick() })
@@ -275,6 +282,7 @@ func All(quick bool) []Params {
 			Params{Buf: b, Senders: [][]int{{1, 2}}, Closer: "", RecvThenClose: 0},
 			Params{Buf: b, Senders: [][]int{{1, 2}}, Closer: "", RecvThenClose: 0, Cancel: "send"},
 			Params{Buf: b, Senders: [][]int{{1}}, Closer: "", RecvThenClose: -1, Cancel: "next"},
+			Params{Buf: b, Senders: [][]int{{1, 2}}, Closer: "last", RecvThenClose: -1, Cancel: "nextRetry"},
 			Params{Buf: b, Senders: [][]int{{1, 2}}, Try: true, Closer: "last", RecvThenClose: -1},
 			Params{Buf: b, Senders: [][]int{{1, 2}, {11}}, Try: true, CloseErr: true, Closer: "thread", RecvThenClose: -1},
 		)
